@@ -8,6 +8,10 @@ thread_local! {
     static ROOT_LP_DISABLED: Cell<bool> = const { Cell::new(false) };
     static FAST_PATH_DISABLED: Cell<bool> = const { Cell::new(false) };
     static AGENDA_SEED: Cell<Option<u64>> = const { Cell::new(None) };
+    static CHECK_INTERVAL: Cell<Option<usize>> = const { Cell::new(None) };
+    static TIMEOUT_AT_CHECK: Cell<Option<u64>> = const { Cell::new(None) };
+    static CHECK_COUNT: Cell<u64> = const { Cell::new(0) };
+    static TIMED_OUT: Cell<bool> = const { Cell::new(false) };
 }
 
 /// Skip the root LP relaxation step of `search_with_timeout_and_memory`.
@@ -37,3 +41,23 @@ pub fn agenda_pick(q: impl Iterator<Item = usize>) -> Option<usize> {
     let x = (seed.wrapping_add(digest)).wrapping_mul(1103515245).wrapping_add(12345) % 2147483648;
     Some((x % len) as usize)
 }
+
+/// Limit injection: override the engine's limit-check interval and script the clock so that the
+/// time limit is seen as expired from the `timeout_at_check`-th limit check on (1-based).
+pub fn set_limit_script(interval: Option<usize>, timeout_at_check: Option<u64>) {
+    CHECK_INTERVAL.with(|c| c.set(interval));
+    TIMEOUT_AT_CHECK.with(|c| c.set(timeout_at_check));
+    CHECK_COUNT.with(|c| c.set(0));
+    TIMED_OUT.with(|c| c.set(false));
+}
+pub fn check_interval() -> Option<usize> { CHECK_INTERVAL.with(|c| c.get()) }
+/// Called at every limit check of `Engine::next`; true = the scripted clock says "expired".
+pub fn scripted_timeout_fires() -> bool {
+    let n = CHECK_COUNT.with(|c| { let n = c.get() + 1; c.set(n); n });
+    match TIMEOUT_AT_CHECK.with(|c| c.get()) {
+        Some(k) if n >= k => { TIMED_OUT.with(|c| c.set(true)); true }
+        _ => false,
+    }
+}
+pub fn timed_out_flag() -> bool { TIMED_OUT.with(|c| c.get()) }
+pub fn limit_checks_done() -> u64 { CHECK_COUNT.with(|c| c.get()) }
